@@ -211,9 +211,12 @@ def run(prop, tier, replay=None, nproc=None, do_build=True):
                         if rw is not None:
                             rw.close()
                             rw = None
-                    if v2 is None or v2["sig"] != sig:
+                    # a recheck may return one violation or a list (a case can
+                    # violate several clauses of a property at once)
+                    v2s = [] if v2 is None else (v2 if isinstance(v2, list) else [v2])
+                    if not any(x["sig"] == sig for x in v2s):
                         print("MACHINERY: violation did not replay deterministically: sig=%r replay=%r"
-                              % (sig, None if v2 is None else v2["sig"]))
+                              % (sig, [x["sig"] for x in v2s]))
                         return EXIT_MACHINERY
             path = write_replay(prop, v, getattr(mod, "ENGINE", "PEX"))
             new_viol_paths.append((sig, path, len(group)))
@@ -287,6 +290,9 @@ def do_replay(mod, prop, path, wkwargs):
         if w is not None:
             w.close()
     print("case:", json.dumps(body["case"], default=repr)[:2000])
+    if isinstance(v, list):
+        same = [x for x in v if x["sig"] == body.get("sig")]
+        v = same[0] if same else (v[0] if v else None)
     if v is None:
         print("replay: property holds on this case now")
         return EXIT_OK
